@@ -41,7 +41,9 @@ fn judge_sample<F: Fl>(xv: &[f64], confs: &[(Kind, f64)], s: &mut Sink) {
     if !close::<F>(hm, 1.0 / erec.mean_f(), 16.0, 1.0) {
         s.violation("harmonic/sample_mean", format!("Harmonic<{}> of {xv:?}: sample_mean {hm:?}, 1/(mean of reciprocals) = {:?}", F::NAME, 1.0 / erec.mean_f()), case0());
     }
-    let slack = 16.0 * F::U * n;
+    // (G = exp(mean ln x) carries the rounding of the mean logarithm amplified by exp:
+    // relative error about u (1 + |ln G|))
+    let slack = 16.0 * F::U * n + 8.0 * F::U * (1.0 + gm.ln().abs());
     if !(hm <= gm * (1.0 + slack) && gm <= am * (1.0 + slack)) {
         s.violation("mean-inequality-H<=G<=A", format!("{xv:?} ({}): H={hm:?} G={gm:?} A={am:?}", F::NAME), case0());
     }
@@ -359,6 +361,15 @@ fn run(tier: Tier, states: &mut u64) -> Sink {
             // length 4 over a 5-value sub-alphabet
             for idx in 0..5u64.pow(4) {
                 jobs.push(Job::S(nth_sequence(5, 4, idx).into_iter().map(|i| [POS[0], POS[3], POS[6], POS[7], POS[8]][i]).collect(), f32_));
+            }
+        }
+        // magnitudes: pairs and triples over 4 values scaled by powers of two (exact)
+        let exps: &[i32] = if f32_ { &[-40, -24, 24, 40] } else { &[-300, -60, 53, 60, 300] };
+        for &e in exps {
+            for len in 2..=3 {
+                for idx in 0..4u64.pow(len as u32) {
+                    jobs.push(Job::S(nth_sequence(4, len, idx).into_iter().map(|i| [0.25, 1.0, 8.0, 3.7][i] * 2f64.powi(e)).collect(), f32_));
+                }
             }
         }
         for &x in &POS {
